@@ -120,6 +120,11 @@ def gen_set(r, dots_ok):
             f["refs"].append(("module", "verif_c07_mod", None))
         if f["inherit"] and r.random() < 0.7:
             f["refs"].append(("self_shared", None, None))
+        if f["inherit"] and later and r.random() < 0.4:
+            # an inheritable namespace declared by the INHERITING template itself: reachable from self as well
+            tgt = r.choice(later)
+            f["mine"] = (rel_spelling(r, f["path"], tgt["path"], dots_ok), tgt["path"])
+            f["refs"].append(("self_mine", None, tgt["path"]))
     # twin references: the same bare relative spelling written in two templates of different directories that are
     # rendered in ONE render (the first includes the second), meaning a different file in each - whatever is cached
     # per render or per lookup under the spelling alone mixes them up
@@ -141,6 +146,25 @@ def gen_set(r, dots_ok):
             a["refs"].append(("include", rel_spelling(r, a["path"], b["path"], dots_ok), b["path"]))
             b["refs"].append((kind, nm + ".html", tb))
             a["refs"].append((kind, nm + ".html", ta))
+    # twin bases: a second base template with the same file name in another directory; one template beside each inherits
+    # "base.html" (the same relative spelling, two different parents) and the first includes the second, so both
+    # chains run in one render
+    if r.random() < 0.3:
+        other = "/d1/base.html" if base["path"] == "/base.html" else "/base.html"
+        if other not in used:
+            d1, d2 = posixpath.dirname(base["path"]), posixpath.dirname(other)
+            plain = [f for f in files[:-2] if not f["inherit"]]
+            As = [f for f in plain if posixpath.dirname(f["path"]) == d1]
+            Bs = [f for f in plain if posixpath.dirname(f["path"]) == d2]
+            pairs = [(a, b) for a in As for b in Bs if files.index(a) < files.index(b)]
+            if pairs:
+                a, b = r.choice(pairs)
+                base2 = {"path": other, "refs": [], "inherit": None, "page": False, "base": True, "shared": None}
+                files.insert(len(files) - 1, base2)
+                used.add(other)
+                a["inherit"] = ("base.html", base["path"])
+                b["inherit"] = ("base.html", other)
+                a["refs"].append(("include", rel_spelling(r, a["path"], b["path"], dots_ok), b["path"]))
     # the base template itself includes something: its context carries `next`, the included template's must not
     if r.random() < 0.5:
         bypath = {f["path"]: f for f in files}
@@ -154,7 +178,7 @@ def gen_set(r, dots_ok):
                 return True
             return any(t is not None and reaches_inheriting(t, seen) for _, _, t in f["refs"])
 
-        cands = [f for f in files[:-1] if not reaches_inheriting(f["path"], set()) and f["path"] != (base["shared"] or (None, None, None))[2]]
+        cands = [f for f in files[:-1] if not f.get("base") and not reaches_inheriting(f["path"], set()) and f["path"] != (base["shared"] or (None, None, None))[2]]
         if cands:
             tgt = r.choice(cands)
             base["refs"].append((r.choice(["include", "api_inc"]), rel_spelling(r, base["path"], tgt["path"], dots_ok), tgt["path"]))
@@ -170,6 +194,8 @@ def emit(f, files):
         head.append("<%page args=\"pa='dflt'\"/>")
     if f.get("shared"):
         head.append('<%%namespace name="shared" file="%s" inheritable="True"/>' % f["shared"][1])
+    if f.get("mine"):
+        head.append('<%%namespace name="mine" file="%s" inheritable="True"/>' % f["mine"][0])
     body.append("{F:%s cv=${cv}%s " % (p, " pa=${pa}" if f["page"] else ""))
     body.append("own=${self.tag() if not %r else local.tag()} parentkey=${'parent' in context.keys()} nextkey=${'next' in context.keys()} " % bool(f["inherit"] or f.get("base")))
     for k, (kind, uri, tgt) in enumerate(f["refs"]):
@@ -205,6 +231,8 @@ def emit(f, files):
             body.append("${%s.mf('x')}" % ns)
         elif kind == "self_shared":
             body.append("${self.shared.tag()}")
+        elif kind == "self_mine":
+            body.append("${self.mine.tag()}")
     if f.get("base"):
         body.append("BASEBODY[${next.body(**pageargs)}]")  # the documented way to hand <%page> arguments down
     body.append("}")
@@ -249,6 +277,8 @@ class Model:
         # file namespaces are looked up when the template body starts
         if f.get("shared"):
             self.resolve(f["shared"][1], f["path"])
+        if f.get("mine"):
+            self.resolve(f["mine"][0], f["path"])
         for kind, uri, tgt in f["refs"]:
             if kind in ("ns_tag", "ns_body", "ns_inline", "ns_import"):
                 self.resolve(uri, f["path"])
@@ -298,6 +328,10 @@ class Model:
                 w("DEF@%s" % self.resolve(base["shared"][1], base["path"]))
                 self.touched.add(self.resolve(base["shared"][1], base["path"]))
                 self.events.add("shared")
+            elif kind == "self_mine":
+                w("DEF@%s" % self.resolve(f["mine"][0], path))
+                self.touched.add(self.resolve(f["mine"][0], path))
+                self.events.add("mine")
         if f.get("base"):
             w("BASEBODY[")
             self.body(self.child, pa=self.child_pa, top_inherits=True)
@@ -319,6 +353,8 @@ class Model:
             refs = [(uri, p) for kind, uri, tgt in f["refs"] if kind in ("ns_tag", "ns_body", "ns_inline", "ns_import")]
             if f.get("shared"):
                 refs.append((f["shared"][1], p))
+            if f.get("mine"):
+                refs.append((f["mine"][0], p))
             if f["inherit"]:
                 refs.append((f["inherit"][0], p))
             for uri, frm in refs:
